@@ -550,3 +550,67 @@ func VerifH_C12_timedBatch() {
 	poll()
 	vpAssert(got == 1, "every-batch-gets-exactly-one-verdict")
 }
+
+// VerifH_C12_timedHardTimeout: a batch with a hard timeout of 20 s, no idle
+// timeout and no retry limit, handed to a peer that never answers: every
+// result the dispatcher sees is a failed request (the per-request timeouts
+// 2 s, 4 s, 8 s, 16 s ... of the real worker, in virtual time).  The batch
+// must get its single timeout verdict when the first result after the
+// deadline is handled (t = 30 s), not run on.
+func VerifH_C12_timedHardTimeout() {
+	vpOpt("clock", 1)
+	vpOpt("timed", 1)
+	vpOpt("timers", 64)
+	vpForceFinish = false
+	peerChan := make(chan Peer, 4)
+	wm := NewWorkManager(&Config{
+		ConnectedPeers: func() (<-chan Peer, func(), error) { return peerChan, func() {}, nil },
+		NewWorker:      NewWorker,
+		Ranking:        NewPeerRanking(),
+	})
+	wm.Start()
+	p := &vpPeer{addr: "a", msgs: make(chan wire.Message, 8), disconnect: make(chan struct{})}
+	peerChan <- p
+	vpQuiesce()
+	nreq := vpRange("requests", 1, 2)
+	var reqs []*Request
+	for k := 0; k < nreq; k++ {
+		reqs = append(reqs, &Request{Req: wire.NewMsgPing(uint64(k)),
+			HandleResp: func(req, resp wire.Message, peer string) Progress { return Progress{} }})
+	}
+	opts := []QueryOption{Timeout(20 * time.Second)}
+	if vpRange("retryLimit", 0, 1) == 0 {
+		opts = append(opts, NoRetryMax())
+	} else {
+		opts = append(opts, NumRetries(50))
+	}
+	errChan := wm.Query(reqs, opts...)
+	vpQuiesce()
+	got := 0
+	var verdict error
+	poll := func() {
+		for {
+			select {
+			case err := <-errChan:
+				got++
+				verdict = err
+				continue
+			default:
+			}
+			return
+		}
+	}
+	time.Sleep(19 * time.Second)
+	vpQuiesce()
+	poll()
+	vpAssert(got == 0, "no-hard-timeout-verdict-before-the-deadline")
+	// request timeouts: 2, 6, 14, 30 s (one request) - the first result after the deadline comes at 30 s
+	time.Sleep(12 * time.Second)
+	vpQuiesce()
+	poll()
+	vpReach("deadline-passed-with-only-failed-requests")
+	vpAssert(got == 1 && verdict == ErrQueryTimeout, "hard-timeout-verdict-when-a-failed-request-is-handled-after-the-deadline")
+	wm.Stop()
+	poll()
+	vpAssert(got == 1, "every-batch-gets-exactly-one-verdict")
+}
